@@ -94,6 +94,16 @@ def c01 (c : Cfg) (d : Dump) : List Fail :=
 
 def dumpGood (c : Cfg) (d : Dump) : Bool := chainValid c d.byh && lookupsAgree d
 
+/-- the by-height view alone is one valid chain whose last header is the reported tip.  This is
+all the C02 clauses need of the state BEFORE an event: what the by-hash index answers for hashes
+that are not on that chain (a memo that outlives a rollback) must not silence them. -/
+def storeGood (c : Cfg) (d : Dump) : Bool :=
+  chainValid c d.byh && d.tip == some ⟨tipId d.byh, tipHeight d.byh⟩
+
+/-- ids the by-hash lookups resolve although they are not on the chain read by height -/
+def strayHashes (d : Dump) : List Nat :=
+  (d.bhash.filter (fun n => !d.byh.contains n.id)).map (·.id)
+
 /-! ### C02 -/
 
 def commonLen : List Nat → List Nat → Nat
@@ -196,9 +206,18 @@ def expectAfter (c : Cfg) (p : Nat) (hs : List Nat) (b : Dump) : Expect :=
           else if listen then .exactly (b.byh.take (fp + 1) ++ cut) "strictly heavier valid branch from a peer we listen to"
           else .free
 
+/-- replaced means gone: a header this event removed from the accepted chain is not reported by
+hash any more (`FetchHeader` / `HeightFromHash` resolve exactly the accepted chain). -/
+def c02Displaced (b a : Dump) : List Fail :=
+  let k := commonLen b.byh a.byh
+  let still := (b.byh.drop k).filter (fun id => a.bhash.any (·.id == id))
+  if still != [] then
+    [("displaced-header-still-resolves", s!"headers {still} were replaced (stored chain {b.byh} -> {a.byh}) yet a lookup by their hash still succeeds")]
+  else []
+
 def c02 (c : Cfg) (ev : Ev) (b a : Dump) : List Fail :=
-  if !dumpGood c b then [] else
-  c02Store c ev b a ++
+  if !storeGood c b then [] else
+  c02Store c ev b a ++ c02Displaced b a ++
   (match ev with
    | .headers p hs =>
      match expectAfter c p hs b with
